@@ -79,7 +79,8 @@ fn case<S: Scheme>(ctx: &mut Ctx, idx: u64, rng: &mut ChaCha20Rng) {
     let mut runs: Vec<(String, BTreeMap<String, String>)> = Vec::new();
     #[cfg(feature = "par")]
     {
-        for t in [1usize, 2, 3, 8, 16] {
+        let pools: &[usize] = if thorough { &[1, 2, 3, 5, 6, 7, 8, 12, 16] } else { &[1, 2, 3, 6, 8, 16] };
+        for &t in pools {
             runs.push((format!("pool-{}", t), in_pool(t, || workload::<S>(seed, thorough))));
         }
         let reps = if thorough { 8 } else { 3 };
